@@ -204,13 +204,13 @@ PLANS["C09"] = dict(
 
 PLANS["C06"] = dict(
     level="other", bounded="c06",
-    modules=[dict(name="jdd")],
-    technique="deductive verification of the real normalise_jdd (iteration over a dict through a ghost duplicate-free key enumeration, finite-map sum theory M-SUM) by VCs from the AST in z3/cvc5; every loader's law by exact-Fraction run-time postconditions on small boxes, both construction paths (labelled stand-in)",
-    level_text="Proved for all inputs: normalisation divides every value by the old total, keeps the key set and yields total mass 1 (under the assumed finite-map sum axioms). The loaders' laws (manual identity, empirical frequencies, normalised product of marginals on the half-open box, sampling mode's functional part, joint function on the closed box, dispatch equals direct construction) are decided by the bounded stand-in with exact Fractions; 'in the limit of many samples' is the law of large numbers and is not decided.",
-    level_note="Trusted: vf VC generator, z3/cvc5; assumed M-SUM axioms (update, scale), dict iteration visits every key once; A-REAL; A-CALLBACK. Bound: boxes with <= 3 dimensions, side <= 4 (6), observed sequences <= 6 tuples.",
-    explanation="PROVED: JointDegree.normalise_jdd keys_unchanged / each_divided_by_old_total / sums_to_one (19 obligations). BOUNDED: each loader's distribution equals the exact oracle, non-negative, same through load_joint_degree; sampling mode: one aligned weighted draw per dimension over kmin..kmax with k = n_samples, frequency table of the column-wise assembled draws.",
-    clauses={"manual returns the given dictionary": "bounded", "empirical = relative frequency": "bounded", "marginal = normalised product on the box (direct)": "normalisation proved; product bounded",
-             "marginal sampling": "functional part bounded; 'in the limit of many samples' NOT DECIDED", "function loader on the whole box": "bounded", "dispatch gives the same distribution": "bounded"},
+    modules=[dict(name="loaders")],
+    technique="deductive verification of the real loaders (Counter-based frequency table, function loader over product(*ranges), product of marginals, range generation, normalisation with the finite-map sum theory; constructors through a parameter-record model of the params dict; inherited methods through declared bases) by VCs from the AST in z3/cvc5, structural dispatch-table obligations; exact-Fraction run-time postconditions on small boxes for the remaining clauses (labelled stand-in)",
+    level_text="Proved for all inputs: the manual loader keeps the given dictionary; the empirical loader (constructor and create_jdd) yields support = observed tuples and value = count/len; the function loader's support is exactly the product of the inclusive ranges kmin..kmax and its value the joint function; the marginal loader's per-key value is the product of the marginals and its key list the product of the half-open ranges; normalisation divides by the old total and gives mass 1; no read of an unassigned table (definite assignment). Dispatch is a discharged structural obligation (if-chain table; main entry = resolve + one more create_jdd). The composition create_jdd_directly (dict(generator), in-place update, normalise) and the sampling mode are decided by the bounded stand-in; 'in the limit of many samples' is not decided. Hence `other`.",
+    level_note="Trusted: vf VC generator, z3/cvc5; assumed: collections.Counter, list(product(*ks)) (members / complete / once), dict iteration, M-SUM axioms; A-REAL; A-CALLBACK; A-INHERIT; the params dictionary is modelled as a record keyed by the enum members. Bound of the stand-in: boxes with <= 3 dimensions, side <= 4 (6), observed sequences <= 6 tuples.",
+    explanation="PROVED (101 obligations incl. 3 induction lemmas): JointDegree.convert_jds_to_jdd support / relative_frequency; JointDegreeManual.__init__ / create_jdd; JointDegreeEmpirical.__init__ / create_jdd; JointDegreeFunction.create_jdd ranges / support_is_the_whole_degree_box / value_is_the_joint_function (and definite assignment of the table: the pre-fix tree fails safe.defined); JointDegreeMarginal.evaluate_prob_of_joint_degree, generate_all_joint_degrees; JointDegree.normalise_jdd. STRUCTURAL (discharged): factory dispatch table, main entry shape. BOUNDED: every loader's distribution vs exact oracle through both construction paths; sampling mode's functional part.",
+    clauses={"manual returns the given dictionary": "proved", "empirical = relative frequency": "proved", "marginal = normalised product on the box (direct)": "per-key product, key box and normalisation proved; their composition bounded",
+             "marginal sampling": "functional part bounded; 'in the limit of many samples' NOT DECIDED", "function loader on the whole box": "proved", "dispatch gives the same distribution": "structural obligation discharged + bounded"},
     not_decided=["'in the limit of many samples' (law of large numbers)"])
 PLANS["C07"] = dict(
     level="exploration", bounded="c07", modules=[],
